@@ -918,6 +918,7 @@ func driveXbinary(opt *Options) error {
 		driveBulkStrings(tw, rnd, nb)
 	} else {
 		driveBulkStrings(tw, rnd, 40000000)
+		driveStackInputs(tw)
 	}
 	for t := 0; t < opt.N; t++ {
 		tw.Emit(map[string]any{"op": "Reset"})
@@ -1519,4 +1520,79 @@ func driveManyDecodes(tw *TraceWriter) {
 	wg.Wait()
 	tw.Emit(map[string]any{"op": "Bulk", "n": 1<<31 - 1, "calls_millions": total >> 20, "what": "more than 2^31 short newBuf decodes in one process",
 		"bad": bad + atomic.LoadInt64(&panics), "panic": atomic.LoadInt64(&panics) > 0})
+}
+
+// ---- inputs that live on a goroutine stack ----------------------------------------------------------------------
+// A small fixed-size buffer is often a local array.  The Go runtime MOVES goroutine stacks when they grow - pointers into
+// them are adjusted, integers that merely hold an address are not.  The leaf below decodes from a local array at 3000
+// different stack depths on fresh goroutines (so that some calls fall right onto a stack growth): with newBuf=false the
+// result must BE the body inside the input (same address, writes to the input seen through it), not bytes somewhere else.
+
+type stackRes struct{ calls, bad int }
+
+//go:noinline
+func stackLeaf(r *stackRes, asString bool) {
+	var bb [96]byte
+	body := "the quick brown fox jumps over the lazy dog"
+	bb[0] = byte(len(body))
+	n := 1 + copy(bb[1:], body)
+	r.calls++
+	if asString {
+		cnt, res, err := xbinary.UnmarshalString(bb[:n], false)
+		if err != nil || cnt != n || res != body || uintptr(unsafe.Pointer(unsafe.StringData(res))) != uintptr(unsafe.Pointer(&bb[1])) {
+			r.bad++
+		}
+		return
+	}
+	cnt, res, err := xbinary.UnmarshalBytes(bb[:n], false)
+	if err != nil || cnt != n || len(res) != len(body) || string(res) != body {
+		r.bad++
+		return
+	}
+	if uintptr(unsafe.Pointer(&res[0])) != uintptr(unsafe.Pointer(&bb[1])) {
+		r.bad++
+		return
+	}
+	bb[1] = 'T'
+	if res[0] != 'T' {
+		r.bad++
+	}
+}
+
+//go:noinline
+func stackRec(r *stackRes, n int, asString bool) int {
+	if n == 0 {
+		stackLeaf(r, asString)
+		return 0
+	}
+	return stackRec(r, n-1, asString) + 1
+}
+
+//go:noinline
+func stackPad(r *stackRes, n int, asString bool) int {
+	var pad [24]byte // shifts the frames below by a few words
+	pad[n%24] = byte(n)
+	return stackRec(r, n, asString) + int(pad[(n+1)%24])
+}
+
+func driveStackInputs(tw *TraceWriter) {
+	r := &stackRes{}
+	panicked, _ := callPanics(func() {
+		for depth := 0; depth < 3000; depth++ {
+			for _, asString := range []bool{false, true} {
+				done := make(chan struct{})
+				go func() {
+					defer close(done)
+					if depth%2 == 0 {
+						stackRec(r, depth/2, asString)
+					} else {
+						stackPad(r, depth/2, asString)
+					}
+				}()
+				<-done
+			}
+		}
+	})
+	tw.Emit(map[string]any{"op": "Bulk", "what": "inputs in local arrays at 3000 stack depths (newBuf=false: the result is the body inside the input)",
+		"n": r.calls, "bad": r.bad, "panic": panicked})
 }
